@@ -43,8 +43,15 @@ factory  def f(schematic: elm.Schematic, p: float|int|bool = CONST, ...) -> ...:
 === SimpleCircuit/Display.py ===  the four text functions the adapters call, -> g_print_real / g_print_complex /
   g_print_sinosoidal / g_print_active_power (parameter names and order must be the model's):
   statements   NAME = <e> | NAME += <e> | if <bool>: return <e> | if <bool>: NAME += <e> ... | return <e>
+               | L = [<text>, ...] | L.append(<text>) | if <bool>: <updates of one variable> [else: <updates of the same variable>]
+               (an update is NAME += <e> or L.append(<text>); `if/else` -> let v' := if b then .. else .. in)
   <e> text     'lit' | str(<e>) | f'{a}{b}' | a if <bool> else b | ScientificFloat(...) | str(ScientificComplex(...))
                (argument binding and defaults of the two dataclasses are read from Utils.py; exp_prefixes a dict literal)
+               | ''.join(L) -> List.concat L | L[K] -> List.nth K L []  (K a literal index smaller than the number of texts L holds on
+               every path, which the translator tracks: no IndexError is possible)
+  list of texts L: a Coq `list label`, bound by a list literal only (never a second name for the same list, never passed on
+               or returned: Python lists are mutable, the only operations are append / L[K] / ''.join(L));
+               L.append(t) -> L ++ [t]
   <e> number   parameter | value.real (of a float) | abs(x) | phase(z) | degrees(x) | x/2/pi | NAME += pi/2 if <bool> else 0
                (abs / phase of a complex, degrees, +pi/2 and /2/pi are the oracles of Model/Annotation.v)
   <bool>       parameter | not <bool> | x > 0 | x > FLOAT | x == 0
@@ -66,6 +73,13 @@ factory  def f(schematic: elm.Schematic, p: float|int|bool = CONST, ...) -> ...:
   fill, after the element loop and `if light_lamps:` : try: solution = solution_definition.diagram_solution_creator(schematic)
       (except ValueError -> IllegalElementValue), then loops
       for v in solution_definition.<list>: try: schematic += solution.draw_X(**v)  except dp.UnknownElement as e: print(...)
+  (robh) or, for any of these loops,   schematic = _h(schematic, solution_definition.<list>, lambda v: solution.draw_X(**v), 'text')
+      with a private module-level helper   def _h(p0, p1, ..): for d in pj: <body>; ...; return p0
+      The call is replaced by the body of _h before the recognition above (p0 renamed to the caller's name, which must be both the
+      target and the first argument; a string literal / dotted name substituted for the single read of its parameter, the dotted
+      name only as the iterable of the `for` that starts the helper; a call f(d) of a lambda parameter replaced by the body of the
+      lambda with d for its parameter); see inline_loop_helper for the exact conditions.  A private helper that fill does not call
+      in this way is refused.
 """
 import ast
 import copy
@@ -200,6 +214,104 @@ class _Inline(ast.NodeTransformer):
         self.uses[key] = self.uses.get(key, 0) + 1
         new = _Subst(given).visit(copy.deepcopy(e))
         return ast.copy_location(new, node)
+
+
+def inline_loop_helper(st, helpers, outer_names, path, used):
+    """X = _h(X, a1, ..., an)   with the module-level private helper
+           def _h(p0, p1, ..., pn):  for v in pj: <body> ; ... ; return p0
+    -> the statements of _h before its final `return p0`, with p0 renamed to X and every other parameter replaced by its argument.
+    Conditions that make this the same computation: positional arguments only; the target and the first argument are the same
+    name X (so the rebinding of p0 inside the helper is the rebinding of X; `return p0` / `X = ...` give X its own value);
+    every other parameter is read exactly once and never assigned; an argument is
+      a string literal              (evaluating it has no effect, wherever and however often),
+      lambda q: <expr>              (creating it has no effect; the parameter must only be CALLED, with one positional argument that
+                                     is a name: the call is replaced by <expr>[q := that name]; <expr> has no lambda /
+                                     comprehension / walrus and does not mention a local of the helper),
+      a dotted name  a.b            (may run a property: allowed only as the iterable of the `for` that is the FIRST statement of
+                                     the helper, where it is evaluated once and before everything else, like at the call);
+    the helper has no other return, no yield / global / nonlocal / nested def, and its locals differ from the names of the caller.
+    Statements of another form are returned unchanged."""
+    if not (isinstance(st, ast.Assign) and isinstance(st.value, ast.Call) and isinstance(st.value.func, ast.Name)
+            and st.value.func.id in helpers):
+        for n in ast.walk(st):
+            if isinstance(n, ast.Name) and n.id in helpers:
+                raise Unsupported(f'{where(st, path)}: fill: the helper {n.id} is used outside `X = {n.id}(X, ...)`')
+        return [st]
+    call, h = st.value, helpers[st.value.func.id]
+    hn = h.name
+    bad = lambda what, node=st: Unsupported(f'{where(node, path)}: fill / {hn}: {what}')   # noqa: E731
+    a = h.args
+    ps = [x.arg for x in a.args]
+    if a.vararg or a.kwarg or a.kwonlyargs or a.posonlyargs or a.defaults or h.decorator_list or len(set(ps)) != len(ps) or not ps:
+        raise bad('parameters of the helper are not plain positional parameters without defaults', h)
+    if call.keywords or len(call.args) != len(ps) or any(isinstance(x, ast.Starred) for x in call.args):
+        raise bad('the helper is not called with one positional argument per parameter')
+    if not (len(st.targets) == 1 and isinstance(st.targets[0], ast.Name) and isinstance(call.args[0], ast.Name)
+            and call.args[0].id == st.targets[0].id):
+        raise bad('the call is not `X = helper(X, ...)`')
+    X = st.targets[0].id
+    hb = body_without_docstring(h)
+    if not (len(hb) >= 2 and isinstance(hb[-1], ast.Return) and isinstance(hb[-1].value, ast.Name) and hb[-1].value.id == ps[0]):
+        raise bad('the helper does not end in `return <first parameter>`', h)
+    stmts = hb[:-1]
+    for s_ in stmts:
+        for n in ast.walk(s_):
+            if isinstance(n, (ast.Return, ast.Yield, ast.YieldFrom, ast.Await, ast.Global, ast.Nonlocal, ast.FunctionDef, ast.ClassDef,
+                              ast.Lambda, ast.NamedExpr, ast.ListComp, ast.SetComp, ast.DictComp, ast.GeneratorExp, ast.Import,
+                              ast.ImportFrom, ast.Delete)):
+                raise bad(f'{type(n).__name__} inside the helper', n)
+    stored = {n.id for s_ in stmts for n in ast.walk(s_) if isinstance(n, ast.Name) and not isinstance(n.ctx, ast.Load)}
+    stored |= {hd.name for s_ in stmts for n in ast.walk(s_) if isinstance(n, ast.Try) for hd in n.handlers if hd.name}
+    locals_ = stored - {ps[0]}
+    if locals_ & (set(outer_names) | set(ps) | set(helpers)) or X in locals_:
+        raise bad(f'a local of the helper ({sorted(locals_)}) is a parameter or a name of the caller', h)
+    mapping, lambdas = {ps[0]: ast.Name(id=X, ctx=ast.Load())}, {}
+    for q, arg in zip(ps[1:], call.args[1:]):
+        uses = [n for s_ in stmts for n in ast.walk(s_) if isinstance(n, ast.Name) and n.id == q]
+        if len(uses) != 1 or not isinstance(uses[0].ctx, ast.Load):
+            raise bad(f'the parameter {q} is not read exactly once', h)
+        if const_str(arg) is not None:
+            mapping[q] = arg
+        elif isinstance(arg, ast.Lambda):
+            la = arg.args
+            if len(la.args) != 1 or la.vararg or la.kwarg or la.kwonlyargs or la.posonlyargs or la.defaults:
+                raise bad('lambda argument is not `lambda q: <expr>`', arg)
+            for n in ast.walk(arg.body):
+                if isinstance(n, (ast.Lambda, ast.NamedExpr, ast.ListComp, ast.SetComp, ast.DictComp, ast.GeneratorExp, ast.Await,
+                                  ast.Yield, ast.YieldFrom)):
+                    raise bad(f'{type(n).__name__} inside a lambda argument', n)
+                if isinstance(n, ast.Name) and (n.id in locals_ or n.id in ps or not isinstance(n.ctx, ast.Load)):
+                    raise bad(f'the lambda argument mentions {n.id}, a name of the helper', n)
+            lambdas[q] = arg
+        elif dotted(arg) is not None and isinstance(arg, ast.Attribute):
+            if not (isinstance(stmts[0], ast.For) and stmts[0].iter is uses[0]):
+                raise bad(f'{ast.unparse(arg)} is given for {q}, which is not the iterable of a `for` that starts the helper')
+            if any(isinstance(n, ast.Name) and (n.id in locals_ or n.id in ps) for n in ast.walk(arg)):
+                raise bad(f'the argument {ast.unparse(arg)} mentions a name of the helper')
+            mapping[q] = arg
+        else:
+            raise bad(f'argument outside the subset (string literal, lambda q: .., dotted name): {ast.unparse(arg)}', arg)
+
+    class Sub(ast.NodeTransformer):
+        def visit_Name(self, n):
+            if n.id == ps[0]:
+                return ast.copy_location(ast.Name(id=X, ctx=n.ctx), n)
+            if n.id in lambdas:
+                raise bad(f'the function parameter {n.id} is used otherwise than in a call {n.id}(<name>)', n)
+            if n.id in mapping:
+                return ast.copy_location(copy.deepcopy(mapping[n.id]), n)
+            return n
+
+        def visit_Call(self, n):
+            if isinstance(n.func, ast.Name) and n.func.id in lambdas:
+                lam = lambdas[n.func.id]
+                if not (len(n.args) == 1 and not n.keywords and isinstance(n.args[0], ast.Name) and n.args[0].id in locals_):
+                    raise bad(f'the function parameter {n.func.id} is not called with one local name', n)
+                return ast.copy_location(_Subst({lam.args.args[0].arg: n.args[0]}).visit(copy.deepcopy(lam.body)), n)
+            self.generic_visit(n)
+            return n
+    used.add(hn)
+    return [ast.fix_missing_locations(Sub().visit(copy.deepcopy(s_))) for s_ in stmts]
 
 
 def const_coq(n, ty, K, path):
@@ -862,11 +974,32 @@ class Gen:
                 a = dataclass_args(n, sc, ctx, env, 'C')
                 return (f'(scientific_complex_str PO {a["value"]} {a["unit"]} {a["precision"]} {a["use_exp_prefix"]} {a["compact"]} '
                         f'{a["polar"]} {a["deg"]} {a["exp_prefixes"]})', 'label')
+            if isinstance(n, ast.List):
+                # [t1, ...]: a fresh list of texts (only a local may hold it, see `block`); its length is known
+                items = []
+                for e_ in n.elts:
+                    a, t = ex(e_, env, ctx)
+                    if t != 'label':
+                        raise Unsupported(f'{where(n, p)}: {ctx}: list of something that is not a text: {ast.unparse(e_)}')
+                    items.append(a)
+                code = '[' + '; '.join(items) + ']' if items else '(@nil label)'
+                minlen[code] = len(items)
+                return code, 'parts'
+            if isinstance(n, ast.Subscript) and isinstance(n.value, ast.Name) and env.get(n.value.id, (0, 0))[1] == 'parts':
+                # L[K]: K a literal index below the number of texts L holds on every path (no IndexError possible)
+                k = n.slice
+                if not (isinstance(k, ast.Constant) and isinstance(k.value, int) and not isinstance(k.value, bool)
+                        and 0 <= k.value < minlen[env[n.value.id][0]]):
+                    raise Unsupported(f'{where(n, p)}: {ctx}: index of a list of texts that is not a literal known to be in range: {ast.unparse(n)}')
+                return f'(List.nth {k.value}%nat {env[n.value.id][0]} [])', 'label'
+            if isinstance(n, ast.Call) and isinstance(n.func, ast.Attribute) and n.func.attr == 'join' and const_str(n.func.value) == '' \
+                    and len(n.args) == 1 and not n.keywords and isinstance(n.args[0], ast.Name) and env.get(n.args[0].id, (0, 0))[1] == 'parts':
+                return f'(List.concat {env[n.args[0].id][0]})', 'label'        # ''.join(L)
             if isinstance(n, ast.IfExp):
                 t, tt = ex(n.test, env, ctx)
                 a, at = ex(n.body, env, ctx)
                 b, bt = ex(n.orelse, env, ctx)
-                if tt == 'bool' and at == bt:
+                if tt == 'bool' and at == bt and at != 'parts':
                     return f'(if {t} then {a} else {b})', at
                 raise Unsupported(f'{where(n, p)}: {ctx}: conditional expression with operands of types {tt}, {at}, {bt}')
             if isinstance(n, ast.JoinedStr):
@@ -896,6 +1029,25 @@ class Gen:
             raise Unsupported(f'{where(n, p)}: {ctx}: expression outside the subset: {ast.unparse(n)}')
 
         counter = [0]
+        minlen = {}         # Coq atom of a list of texts -> number of texts it holds at least (on every path)
+
+        def append(st, env, ctx):
+            """NAME.append(<text>) on a local list of texts"""
+            c = st.value
+            nm = c.func.value.id
+            if not (nm in env and env[nm][1] == 'parts' and len(c.args) == 1 and not c.keywords):
+                raise Unsupported(f'{where(st, p)}: {ctx}: append outside the subset NAME.append(<text>): {ast.unparse(st)}')
+            a, t = ex(c.args[0], env, ctx)
+            if t != 'label':
+                raise Unsupported(f'{where(st, p)}: {ctx}: a {t} appended to a list of texts')
+            old = env[nm][0]
+            code = f'({old} ++ [{a}])'
+            minlen[code] = minlen[old] + 1
+            return nm, code, 'parts'
+
+        def is_append(st):
+            return isinstance(st, ast.Expr) and isinstance(st.value, ast.Call) and isinstance(st.value.func, ast.Attribute) and \
+                st.value.func.attr == 'append' and isinstance(st.value.func.value, ast.Name)
 
         def fresh(name):
             counter[0] += 1
@@ -935,37 +1087,53 @@ class Gen:
                 return pad + a
             if isinstance(st, ast.Assign) and len(st.targets) == 1 and isinstance(st.targets[0], ast.Name):
                 a, t = ex(st.value, env, ctx)
+                if t == 'parts' and not isinstance(st.value, ast.List):
+                    raise Unsupported(f'{where(st, p)}: {ctx}: a second name for a list: {ast.unparse(st)}')
                 n = fresh(st.targets[0].id)
                 env = dict(env)
                 env[st.targets[0].id] = (n, t)
+                if t == 'parts':
+                    minlen[n] = minlen[a]
                 return f'{pad}let {n} := {a} in\n' + block(rest, env, ctx, ind)
-            if isinstance(st, ast.AugAssign):
-                nm, a, t = aug(st, env, ctx)
+            if isinstance(st, ast.AugAssign) or is_append(st):
+                nm, a, t = aug(st, env, ctx) if isinstance(st, ast.AugAssign) else append(st, env, ctx)
                 n = fresh(nm)
                 env = dict(env)
                 env[nm] = (n, t)
+                if t == 'parts':
+                    minlen[n] = minlen[a]
                 return f'{pad}let {n} := {a} in\n' + block(rest, env, ctx, ind)
-            if isinstance(st, ast.If) and not st.orelse:
+            if isinstance(st, ast.If) and (not st.orelse or not any(isinstance(n_, ast.Return) for s_ in st.body + st.orelse for n_ in ast.walk(s_))):
                 t, tt = ex(st.test, env, ctx)
                 if tt != 'bool':
                     raise Unsupported(f'{where(st, p)}: {ctx}: test outside the subset')
                 if isinstance(st.body[-1], ast.Return):
                     return f'{pad}if {t} then\n' + block(st.body, env, ctx, ind + 2) + f'\n{pad}else\n' + block(rest, env, ctx, ind)
-                # conditional appends to one variable
-                e2 = dict(env)
-                var = None
-                for s_ in st.body:
-                    if not isinstance(s_, ast.AugAssign):
-                        raise Unsupported(f'{where(s_, p)}: {ctx}: statement outside the subset inside `if`')
-                    nm, a, ty = aug(s_, e2, ctx)
-                    if var not in (None, nm):
-                        raise Unsupported(f'{where(s_, p)}: {ctx}: `if` updates two variables')
-                    var = nm
-                    e2[nm] = (a, ty)
+                # conditional updates (NAME += <e> / NAME.append(<e>)) of one variable, in one branch or in both
+                var = [None]
+
+                def updates(stmts):
+                    e2 = dict(env)
+                    for s_ in stmts:
+                        if isinstance(s_, ast.AugAssign):
+                            nm, a, ty = aug(s_, e2, ctx)
+                        elif is_append(s_):
+                            nm, a, ty = append(s_, e2, ctx)
+                        else:
+                            raise Unsupported(f'{where(s_, p)}: {ctx}: statement outside the subset inside `if`')
+                        if var[0] not in (None, nm):
+                            raise Unsupported(f'{where(s_, p)}: {ctx}: `if` updates two variables')
+                        var[0] = nm
+                        e2[nm] = (a, ty)
+                    return e2
+                e_then, e_else = updates(st.body), updates(st.orelse)
+                var = var[0]
                 n = fresh(var)
                 env2 = dict(env)
                 env2[var] = (n, env[var][1])
-                return f'{pad}let {n} := (if {t} then {e2[var][0]} else {env[var][0]}) in\n' + block(rest, env2, ctx, ind)
+                if env[var][1] == 'parts':
+                    minlen[n] = min(minlen[e_then[var][0]], minlen[e_else[var][0]])
+                return f'{pad}let {n} := (if {t} then {e_then[var][0]} else {e_else[var][0]}) in\n' + block(rest, env2, ctx, ind)
             raise Unsupported(f'{where(st, p)}: {ctx}: statement outside the subset: {ast.unparse(st)[:60]}')
 
         out = []
@@ -1160,7 +1328,7 @@ def generate(src):
     sec.append('(* signature(solution_fcn).parameters.keys() *)\nDefinition g_sol_signature (f : sol_fn) : list label :=\n  match f with\n'
                + '\n'.join(rows) + '\n  end.')
     # ---- schematic.py, annotation part
-    spath, stree, sfuncs, stables, sclasses = schematic_module(src)
+    spath, stree, sfuncs, stables, sclasses, sextra = schematic_module(src)
     srel = 'SimpleSimulation/schematic.py'
     d = need(stables, 'solutions', spath, 'dict literal')
     srows = []
@@ -1227,7 +1395,12 @@ def generate(src):
     # fill: after the element loop
     f = need(sfuncs, 'fill', spath)
     body = body_without_docstring(f)
-    rest = body[1:]
+    used_helpers = set()
+    rest = [s2 for s in body[1:] for s2 in inline_loop_helper(s, sextra['helpers'], [x.arg for x in f.args.args] + ['solution'],
+                                                              spath, used_helpers)]
+    for hn in sextra['helpers']:
+        if hn not in used_helpers:
+            raise Unsupported(f'{where(sextra["helpers"][hn], spath)}: the private helper {hn} is not called by fill')
     head = [s for s in rest if not isinstance(s, ast.For)]
     loops = [s for s in rest if isinstance(s, ast.For)]
     if rest[:len(head)] != head:
